@@ -2,20 +2,69 @@
 Proved for the rules whose decision cores are modelled (theorems of C15/C16/C17 listed in Props/C02.lean); every rule the
 pipeline invokes is applied in isolation to the fixed corpus by the rule sweep (support, reported separately)."""
 import common
+import flowrules
 import oracles
 import sweep
 
-TRUSTED = ["C02: rules without a Lean model (comprehension, collection, numpy/pandas, class, import, naming rules) are examined only by the execution sweep"]
+TRUSTED = ["C02: the control-flow rules are validated rewrite by rewrite on labelled skeleton programs (suite flow-validate; reader / renderer of the skeleton language in harness/flowrules.py); "
+           "expressions, assignments and return values are outside the skeleton",
+           "C02: rules without a Lean model (comprehension, collection, numpy/pandas, class, import, naming rules) are examined only by the execution sweep"]
 ASSUMPTIONS = ["closed deterministic programs; CPython exec() as semantics"]
+
+
+HOIST = "hoist-before-effectful-test"
+
+
+def only_test_evaluation_differs(src, out):
+    """under every valuation: same outcome and same sequence of executed statements (only when / whether tests run differs)"""
+    try:
+        ra, rb = flowrules.run_all(src), flowrules.run_all(out)
+    except SyntaxError:
+        return False
+    for a, b in zip(ra, rb):
+        if a[0] == "fuel" and b[0] == "fuel":
+            continue
+        if a[0] != b[0] or [e for e in a[1] if e[0] == "s"] != [e for e in b[1] if e[0] == "s"]:
+            return False
+    return True
+
+
+def flow_suite(ctx):
+    """the validator suite; a rewrite that is not validated is executed at once: the recorded finding (common leading code
+    hoisted in front of a test, so that the test runs later or not at all) is recognised by what differs"""
+    s = flowrules.validate_suite(ctx)
+    known = [k for k in common.load_known("C02") if k["kind"] == "finding" and k.get("id") == HOIST]
+    keep, hits = [], 0
+    for d in s.disagreements:
+        if known and d.get("rule") == known[0]["witness"]["rule"] and "src" in d and flowrules.differs(d["src"], d["out"]) and only_test_evaluation_differs(d["src"], d["out"]):
+            hits += 1
+        else:
+            keep.append(d)
+    s.disagreements = keep
+    s.hist["known-finding:" + HOIST] = hits
+    return s
 
 
 def suites(ctx):
     common.import_pyrefact()
-    return [sweep.rules_suite(ctx, quick_n=70)]
+    return [flow_suite(ctx), sweep.rules_suite(ctx, quick_n=70)]
 
 
 def match_known(d, known):
+    if "witness" in d and "rule" in d and "sha" not in d:  # a concrete valuation found for a rewrite that did not validate
+        for k in known:
+            if k["kind"] == "finding" and k.get("id") == HOIST and k["witness"]["rule"] == d["rule"] and only_test_evaluation_differs(d["src"], d["out"]):
+                return k
+        return None
     return sweep.match_known_sha(d, known)
+
+
+def search(ctx, breaks):
+    common.import_pyrefact()
+    found = []
+    for b in breaks:
+        found += flowrules.search(b.get("inputs", []))
+    return found[:6]
 
 
 def replay_witness(ctx, kf):
@@ -30,6 +79,12 @@ def replay_witness(ctx, kf):
 
 def replay(ctx, inp):
     common.import_pyrefact()
+    if "witness" in inp and "out" in inp:
+        fn = oracles.resolve_rule(inp["rule"])
+        out = fn(inp["src"])
+        w = flowrules.differs(inp["src"], out)
+        print(out, w)
+        return bool(w)
     res = sweep.task_rules((inp["src"], [inp["rule"]], inp.get("family") == "repo-example"))
     b = res["before"]
     bad = any(st == "ok" and after is not None and (after[0], after[1], after[2]) != (b[0], b[1], b[2]) for (_r, st, _n, after) in res["rules"])
